@@ -84,7 +84,20 @@ def render_literal(v):
         return v['tag']
     if k == 'none':
         return 'null'
+    if k == 'bytes':
+        return '"%s"' % ('a' * v['len'])            # a Bytes default is written as text
     raise ValueError(v)
+
+
+def render_default(t, v, schema):
+    """A default literal for a field of type t (timestamps are written in the field's format)."""
+    if v['k'] == 'ts':
+        import datetime
+        while t['k'] == 'ref' and schema[t['n']]['k'] == 'alias':
+            t = schema[t['n']]['t']
+        vals = [datetime.datetime(2015, 5, 12, 15, 50, 38), datetime.datetime(1999, 12, 31, 23, 59, 59)]
+        return '"%s"' % vals[v['id']].strftime(TS_FORMATS[t['fmt']])
+    return render_literal(v)
 
 
 NOT_OK_TAIL = 'Z'
@@ -197,7 +210,7 @@ def render_schema(schema, roots=(), route_ns=None, annotations=None, patched=Non
                         continue
                     line = '    %s %s' % (f['n'], render_type(f['t'], ns, schema))
                     if f['d']['k'] != 'nodefault':
-                        line += ' = ' + render_literal(f['d'])
+                        line += ' = ' + render_default(f['t'], f['d'], schema)
                     body.append(line)
                     if f.get('omit'):
                         body.append('        @Omit_%s' % f['omit'])
